@@ -139,7 +139,7 @@ BIN_EPS: list[BinEP] = [
     BinEP("btclib.ecc.ellswift.decode_var", _plain(ellswift.decode_var), ("ellswift",), param="Octets", has_cv=False),
     BinEP("btclib.curves.sec_point.point_from_octets", lambda a, cv, x: sec_point.point_from_octets(a, hybrid=x), ("point", "point_any"), param="Octets", has_cv=False, variants=(False, True)),
     BinEP("btclib.ecc.ssa.point_from_bip340pub_key", _plain(ssa.point_from_bip340pub_key), ("point_x", "point_any"), param="Octets", has_cv=False),
-    BinEP("btclib.descriptors.miniscript.from_script", lambda a, cv, x: miniscript.from_script(a, x[0], x[1]), ("ms_script", "script"), param="Octets", has_cv=False, variants=("seed", ("P2WSH", None), ("TAPSCRIPT", None), ("P2WSH", {}))),
+    BinEP("btclib.descriptors.miniscript.from_script", lambda a, cv, x: miniscript.from_script(a, x[0], x[1]), ("ms_script", "script"), param="Octets", has_cv=False, variants=("seed", ("P2WSH", None), ("tapscript", None), ("P2WSH", {}))),
     BinEP("btclib.utils.decode_num", lambda a, cv, x: __import__("btclib.utils", fromlist=["x"]).decode_num(a), ("bits", "var_int"), param="bytes", has_cv=False),
     BinEP("btclib.silent_payments.pub_key_from_input", lambda a, cv, x: __import__("btclib.silent_payments", fromlist=["x"]).pub_key_from_input(a, *x), ("script",), param="Octets", has_cv=False,
           variants=((), (b"\x16\x00\x14" + b"\x11" * 20,), (b"\x00",), ("4730440220" + "11" * 32 + "0220" + "22" * 32 + "0121" + "02" + "33" * 32,))),
@@ -254,7 +254,7 @@ TEXT_EPS: list[TextEP] = [
     TextEP("btclib.descriptors.descriptors.parse", lambda s, cv, x: descriptors.parse(s, x), ("descriptor", "descriptor_invalid"), ("desc",), variants=NETWORKS, str_only=True),
     TextEP("btclib.descriptors.descriptors.checksum", _t(descriptors.checksum), ("descriptor", "descriptor_invalid"), str_only=True),
     TextEP("btclib.descriptors.descriptors.from_address", _t(descriptors.from_address), ("address",), ("b58check", "bech32"), str_only=True),
-    TextEP("btclib.descriptors.miniscript.parse", lambda s, cv, x: miniscript.parse(s, x), ("miniscript", "miniscript_invalid"), variants=("P2WSH", "TAPSCRIPT"), str_only=True),
+    TextEP("btclib.descriptors.miniscript.parse", lambda s, cv, x: miniscript.parse(s, x), ("miniscript", "miniscript_invalid"), variants=("P2WSH", "tapscript"), str_only=True),
     TextEP("btclib.wallet.descriptor_wallet.DescriptorWallet.from_descriptor", lambda s, cv, x: DescriptorWallet.from_descriptor(s, x), ("descriptor",), ("desc",), variants=NETWORKS, str_only=True),
     TextEP("btclib.script.script_pub_key.ScriptPubKey.from_address", _tcv(ScriptPubKey.from_address), ("address",), ("b58check", "bech32"), has_cv=True),
     TextEP("btclib.tx.tx_out.TxOut.from_address", lambda s, cv, x: TxOut.from_address(x, s), ("address",), ("b58check", "bech32"), variants=(0, 1, 21 * 10**14, 21 * 10**14 + 1, -1)),
